@@ -1,6 +1,9 @@
 import Ufw.Props.C04
+import Ufw.Tie.RegTable
 #print axioms Ufw.Props.C04.orderCheck_go_none
 #print axioms Ufw.Props.C04.orderCheck_go_some
 #print axioms Ufw.Props.C04.init_outcome
 #print axioms Ufw.Props.C04.uninitialised_refuses
 #print axioms Ufw.Props.C04.init_no_areas
+#print axioms Ufw.Tie.RegTable.const_rds_size
+#print axioms Ufw.Tie.RegTable.const_enums
